@@ -420,6 +420,29 @@ type intEnv struct {
 	recv   string
 	fields map[string]bool // receiver fields used (become parameters)
 	// struct types whose literals we can print
+	// overflow companion: every +, -, *, unary -, / and % translated since the last drain, as Lean
+	// Bool expressions that are true iff the Go int result would leave the int64 range (or divide by 0)
+	pending []string
+	ovfMode bool // block() builds the overflow companion (a Bool) instead of the function's value
+}
+
+// drain returns the overflow conditions collected since mark and forgets them.
+func (e *intEnv) drain(mark int) []string {
+	out := append([]string(nil), e.pending[mark:]...)
+	e.pending = e.pending[:mark]
+	return out
+}
+
+func orAll(conds []string, rest string) string {
+	res := rest
+	for i := len(conds) - 1; i >= 0; i-- {
+		if res == "false" {
+			res = conds[i]
+		} else {
+			res = "(" + conds[i] + " || " + res + ")"
+		}
+	}
+	return res
 }
 
 type scope map[string]string
@@ -464,20 +487,40 @@ func (e *intEnv) expr(x ast.Expr, sc scope) string {
 		case token.NOT:
 			return "(!" + e.expr(v.X, sc) + ")"
 		case token.SUB:
-			return "(-" + e.expr(v.X, sc) + ")"
+			r := "(-" + e.expr(v.X, sc) + ")"
+			e.pending = append(e.pending, "(Sqroot.outI64 "+r+")")
+			return r
 		}
 	case *ast.BinaryExpr:
-		a, b := e.expr(v.X, sc), e.expr(v.Y, sc)
+		a := e.expr(v.X, sc)
+		markB := len(e.pending)
+		b := e.expr(v.Y, sc)
+		if v.Op == token.LAND || v.Op == token.LOR {
+			// the right operand is evaluated only when the left one does not decide
+			guard := a
+			if v.Op == token.LOR {
+				guard = "(!" + a + ")"
+			}
+			for _, c := range e.drain(markB) {
+				e.pending = append(e.pending, "("+guard+" && "+c+")")
+			}
+		}
+		arith := func(r string) string {
+			e.pending = append(e.pending, "(Sqroot.outI64 "+r+")")
+			return r
+		}
 		switch v.Op {
 		case token.ADD:
-			return "(" + a + " + " + b + ")"
+			return arith("(" + a + " + " + b + ")")
 		case token.SUB:
-			return "(" + a + " - " + b + ")"
+			return arith("(" + a + " - " + b + ")")
 		case token.MUL:
-			return "(" + a + " * " + b + ")"
+			return arith("(" + a + " * " + b + ")")
 		case token.QUO:
-			return "(Int.tdiv " + a + " " + b + ")"
+			e.pending = append(e.pending, "("+b+" == 0)")
+			return arith("(Int.tdiv " + a + " " + b + ")")
 		case token.REM:
+			e.pending = append(e.pending, "("+b+" == 0)")
 			return "(Int.tmod " + a + " " + b + ")"
 		case token.LSS:
 			return "(decide (" + a + " < " + b + "))"
@@ -519,6 +562,7 @@ func (e *intEnv) expr(x ast.Expr, sc scope) string {
 				for _, a := range v.Args {
 					parts = append(parts, e.expr(a, sc))
 				}
+				e.pending = append(e.pending, "("+id.Name+"Ovf "+strings.Join(parts[1:], " ")+")")
 				return "(" + strings.Join(parts, " ") + ")"
 			}
 		}
@@ -564,8 +608,13 @@ func (e *intEnv) block(stmts []ast.Stmt, sc scope, rest func(scope) string) stri
 	switch s := st.(type) {
 	case *ast.ReturnStmt:
 		var parts []string
+		mark := len(e.pending)
 		for _, r := range s.Results {
 			parts = append(parts, e.expr(r, sc))
+		}
+		conds := e.drain(mark)
+		if e.ovfMode {
+			return orAll(conds, "false")
 		}
 		if len(parts) == 1 {
 			return parts[0]
@@ -574,6 +623,15 @@ func (e *intEnv) block(stmts []ast.Stmt, sc scope, rest func(scope) string) stri
 	case *ast.AssignStmt:
 		if len(s.Lhs) == len(s.Rhs) {
 			n := sc.clone()
+			mark := len(e.pending)
+			wrap := func(res string) string {
+				conds := e.drain(mark)
+				if e.ovfMode {
+					return orAll(conds, res)
+				}
+				return res
+			}
+			_ = wrap
 			for i := range s.Lhs {
 				id, ok := s.Lhs[i].(*ast.Ident)
 				if !ok {
@@ -586,11 +644,17 @@ func (e *intEnv) block(stmts []ast.Stmt, sc scope, rest func(scope) string) stri
 					n[id.Name] = rhs
 				case token.ADD_ASSIGN:
 					n[id.Name] = "(" + sc[id.Name] + " + " + rhs + ")"
+					e.pending = append(e.pending, "(Sqroot.outI64 "+n[id.Name]+")")
 				case token.SUB_ASSIGN:
 					n[id.Name] = "(" + sc[id.Name] + " - " + rhs + ")"
+					e.pending = append(e.pending, "(Sqroot.outI64 "+n[id.Name]+")")
 				default:
 					e.o.problem("%s: unsupported assignment operator", e.ctx)
 				}
+			}
+			conds := e.drain(mark)
+			if e.ovfMode {
+				return orAll(conds, cont(n))
 			}
 			return cont(n)
 		}
@@ -610,6 +674,7 @@ func (e *intEnv) block(stmts []ast.Stmt, sc scope, rest func(scope) string) stri
 	case *ast.DeclStmt:
 		gd := s.Decl.(*ast.GenDecl)
 		n := sc.clone()
+		mark := len(e.pending)
 		for _, sp := range gd.Specs {
 			vs := sp.(*ast.ValueSpec)
 			for i, id := range vs.Names {
@@ -622,12 +687,17 @@ func (e *intEnv) block(stmts []ast.Stmt, sc scope, rest func(scope) string) stri
 				}
 			}
 		}
+		if conds := e.drain(mark); e.ovfMode {
+			return orAll(conds, cont(n))
+		}
 		return cont(n)
 	case *ast.IfStmt:
 		if s.Init != nil {
 			e.o.problem("%s: if with init", e.ctx)
 		}
+		markC := len(e.pending)
 		c := e.expr(s.Cond, sc)
+		condBad := e.drain(markC)
 		thn := e.block(s.Body.List, sc.clone(), cont)
 		var els string
 		switch el := s.Else.(type) {
@@ -638,12 +708,16 @@ func (e *intEnv) block(stmts []ast.Stmt, sc scope, rest func(scope) string) stri
 		case *ast.IfStmt:
 			els = e.block([]ast.Stmt{el}, sc.clone(), cont)
 		}
+		if e.ovfMode {
+			return orAll(condBad, "(if "+c+" then "+thn+" else "+els+")")
+		}
 		return "(if " + c + " then " + thn + " else " + els + ")"
 	case *ast.SwitchStmt:
 		if s.Init != nil || s.Tag == nil {
 			e.o.problem("%s: unsupported switch form", e.ctx)
 			return cont(sc)
 		}
+		markT := len(e.pending)
 		tag := e.expr(s.Tag, sc)
 		var def []ast.Stmt
 		hasDef := false
@@ -664,6 +738,7 @@ func (e *intEnv) block(stmts []ast.Stmt, sc scope, rest func(scope) string) stri
 			}
 			arms = append(arms, arm{strings.Join(cs, " || "), cl.Body})
 		}
+		tagBad := e.drain(markT)
 		var res string
 		if hasDef {
 			res = e.block(def, sc.clone(), cont)
@@ -672,6 +747,10 @@ func (e *intEnv) block(stmts []ast.Stmt, sc scope, rest func(scope) string) stri
 		}
 		for i := len(arms) - 1; i >= 0; i-- {
 			res = "(if " + arms[i].cond + " then " + e.block(arms[i].body, sc.clone(), cont) + " else " + res + ")"
+		}
+		if e.ovfMode {
+			// tag and case expressions are evaluated before any arm runs (conservative: all of them)
+			return orAll(tagBad, res)
 		}
 		return res
 	}
@@ -763,6 +842,10 @@ func (p *pkgInfo) translateFunc(o *out, key, leanName string, extraParams []lean
 		ps = append(ps, fmt.Sprintf("(%s : %s)", pr.name, pr.typ))
 	}
 	o.line("def %s %s : %s :=\n  %s", leanName, strings.Join(ps, " "), strings.Join(rets, " × "), body)
+	// overflow companion: true iff some +, -, *, unary -, / on the executed path leaves int64 (or divides by 0)
+	e2 := &intEnv{p: p, o: &out{}, ctx: key, recv: e.recv, fields: map[string]bool{}, ovfMode: true}
+	ovf := e2.block(fd.Body.List, sc, func(scope) string { return "false" })
+	o.line("def %sOvf %s : Bool :=\n  %s", leanName, strings.Join(ps, " "), ovf)
 }
 
 // ---------------------------------------------------------------- defaults of Fprint / Fwrite
